@@ -516,4 +516,440 @@ theorem fit_spec (share : Nat → Nat → Nat → Nat) (avail : Nat) (cols : Lis
         have := (e5 _ (List.of_mem_zip hmem.1).1).2
         exact Or.inr ⟨w, r1, r2, r3, r4, r5, by simpa using this⟩
 
+/-! ### drawing: widths -/
+
+theorem rep_succ (n : Nat) (s : Str) : rep (n + 1) s = s ++ rep n s := by
+  simp [rep, List.replicate_succ]
+
+theorem rep_length (n : Nat) (s : Str) : (rep n s).length = n * s.length := by
+  induction n with
+  | zero => simp [rep]
+  | succ n ih => rw [rep_succ, List.length_append, ih, Nat.succ_mul]; omega
+
+/-- widths of the pieces of one line: every cell (incl. its format excess) is followed by the
+centre border (`c`), the last one by the right border (`r`) -/
+def pieceWidths (c r : Nat) : List Nat → List Nat
+  | [] => []
+  | [x] => [x + r]
+  | x :: y :: xs => (x + c) :: pieceWidths c r (y :: xs)
+
+def gridWidth (c r : Nat) (xs : List Nat) : Nat := (pieceWidths c r xs).sum
+
+/-- the width of every line of the table before the trailing-blank strip -/
+def tableWidth (st : Clikit.Gen.C14.TableStyle) (indent : Nat) (outs : List ColOut) : Nat :=
+  indent + st.border.line_vl_char.length
+    + gridWidth st.border.line_vc_char.length st.border.line_vr_char.length
+        (outs.map (fun o => o.width + excess st))
+
+theorem gridWidth_cons (c r x : Nat) (ws : List Nat) (k : Nat) :
+    gridWidth c r ((x :: ws).map (· + k)) = (x :: ws).sum + (ws.length + 1) * k + ws.length * c + r := by
+  induction ws generalizing x with
+  | nil => simp [gridWidth, pieceWidths] <;> omega
+  | cons y r2 ih =>
+    have := ih y
+    simp only [gridWidth, List.map_cons, pieceWidths, List.sum_cons, List.length_cons, Nat.add_mul,
+      Nat.one_mul] at this ⊢
+    omega
+
+theorem padCell_length (pad : Str) (hp : pad.length = 1) (a w : Nat) (line : Str)
+    (h : line.length ≤ w) : ∃ p, padCell pad a w line = some p ∧ p.length = w := by
+  unfold padCell
+  rw [if_pos h]
+  simp only
+  split
+  · exact ⟨_, rfl, by simp [rep_length, hp]; omega⟩
+  · split
+    · exact ⟨_, rfl, by simp [rep_length, hp]; omega⟩
+    · exact ⟨_, rfl, by simp [rep_length, hp]; omega⟩
+
+theorem getD_nil_or_mem {α} (ls : List (List α)) (k : Nat) : ls.getD k [] = [] ∨ ls.getD k [] ∈ ls := by
+  rw [List.getD_eq_getElem?_getD]
+  cases h : ls[k]? with
+  | none => exact Or.inl rfl
+  | some x => exact Or.inr (List.mem_of_getElem? h)
+
+/-- every line of every cell of the row fits its column -/
+def RowFits (row : List RowCol) : Prop := ∀ c ∈ row, ∀ l ∈ c.2.2, l.length ≤ c.1
+
+theorem rowPieces_widths (st : Clikit.Gen.C14.TableStyle) (fmt : Str × Str)
+    (hp : st.padding_char.length = 1) (k : Nat) :
+    ∀ row, RowFits row →
+      (rowPieces st fmt k row).map List.length
+        = pieceWidths st.border.line_vc_char.length st.border.line_vr_char.length
+            (row.map (fun c => c.1 + fmtLen fmt)) := by
+  intro row
+  induction row with
+  | nil => intro _; rfl
+  | cons c r ih =>
+    intro hfit
+    obtain ⟨w, a, ls⟩ := c
+    have hline : (ls.getD k []).length ≤ w := by
+      rcases getD_nil_or_mem ls k with h | h
+      · rw [h]; simp
+      · exact hfit (w, a, ls) List.mem_cons_self _ h
+    obtain ⟨p, hp1, hp2⟩ := padCell_length st.padding_char hp a w _ hline
+    have ih' := ih (fun c hc => hfit c (List.mem_cons_of_mem _ hc))
+    cases r with
+    | nil =>
+      simp only [rowPieces, hp1, List.isEmpty_nil, if_true, List.map_cons, List.map_nil, pieceWidths,
+        List.length_append, hp2, fmtLen]
+      congr 1; omega
+    | cons c2 r2 =>
+      rw [rowPieces, List.map_cons, ih']
+      simp only [hp1, List.isEmpty_cons, Bool.false_eq_true, if_false, List.map_cons, pieceWidths,
+        List.length_append, hp2, fmtLen]
+      congr 1; omega
+
+theorem borderBody_length (lineCh c r : Str) (h1 : lineCh.length = 1) :
+    ∀ lens, (borderBody lineCh c r lens).length = gridWidth c.length r.length lens := by
+  intro lens
+  induction lens with
+  | nil => rfl
+  | cons x xs ih =>
+    cases xs with
+    | nil => simp [borderBody, gridWidth, pieceWidths, rep_length, h1]
+    | cons y ys =>
+      rw [borderBody, List.length_append, List.length_append, ih]
+      simp only [gridWidth, pieceWidths, List.sum_cons, rep_length, h1]; omega
+
+theorem borderBody_blank (c r : Str) (hc : ∀ x ∈ c, isWs x = true) (hr : ∀ x ∈ r, isWs x = true) :
+    ∀ lens, ∀ x ∈ borderBody [] c r lens, isWs x = true := by
+  intro lens
+  have hrep : ∀ n, rep n ([] : Str) = [] := by
+    intro n; induction n with
+    | zero => rfl
+    | succ n ih => rw [rep_succ, ih]; rfl
+  induction lens with
+  | nil => intro x hx; simp [borderBody] at hx
+  | cons y ys ih =>
+    cases ys with
+    | nil => intro x hx; simp only [borderBody, hrep, List.nil_append] at hx; exact hr x hx
+    | cons z zs =>
+      intro x hx
+      simp only [borderBody, hrep, List.nil_append] at hx ih
+      rcases List.mem_append.mp hx with h | h
+      · exact hc x h
+      · exact ih x h
+
+theorem rep_blank (n : Nat) : ∀ x ∈ rep n [' '], isWs x = true := by
+  induction n with
+  | zero => intro x hx; simp [rep] at hx
+  | succ n ih =>
+    intro x hx
+    rw [rep_succ] at hx
+    rcases List.mem_append.mp hx with h | h
+    · simp at h; subst h; decide
+    · exact ih x h
+
+/-! ### drawing: the rows of the fitted columns -/
+
+/-- the fitted columns are consistent: every line of every cell fits the column width -/
+def OutsOk (outs : List ColOut) : Prop := ∀ o ∈ outs, ∀ c ∈ o.cells, CellOk c ∧ c.len ≤ o.width
+
+theorem rowDataFrom_widths (aligns : List Nat) (i : Nat) :
+    ∀ (outs : List ColOut) (j : Nat), (rowDataFrom aligns i j outs).map (·.1) = outs.map (·.width) := by
+  intro outs
+  induction outs with
+  | nil => intro j; rfl
+  | cons o r ih => intro j; simp only [rowDataFrom, List.map_cons, ih]
+
+theorem rowDataFrom_fits (aligns : List Nat) (i : Nat) :
+    ∀ (outs : List ColOut) (j : Nat), OutsOk outs → RowFits (rowDataFrom aligns i j outs) := by
+  intro outs
+  induction outs with
+  | nil => intro j _ c hc; simp [rowDataFrom] at hc
+  | cons o r ih =>
+    intro j hok c hc
+    rw [rowDataFrom] at hc
+    rcases List.mem_cons.mp hc with h | h
+    · subst h
+      intro l hl
+      simp only at hl ⊢
+      rw [List.getD_eq_getElem?_getD] at hl
+      cases hget : o.cells[i]? with
+      | none =>
+        rw [hget] at hl
+        simp [splitLines] at hl
+        subst hl; simp
+      | some cell =>
+        rw [hget] at hl
+        have hmem := List.mem_of_getElem? hget
+        obtain ⟨h1, h2⟩ := hok o List.mem_cons_self cell hmem
+        have := h1 l hl
+        omega
+    · exact ih (j + 1) (fun o' ho' => hok o' (List.mem_cons_of_mem _ ho')) c h
+
+theorem rowLineRaw_length (st : Clikit.Gen.C14.TableStyle) (fmt : Str × Str)
+    (hp : st.padding_char.length = 1) (hf : fmtLen fmt = excess st) (indent : Nat)
+    (outs : List ColOut) (hok : OutsOk outs) (aligns : List Nat) (i k : Nat) :
+    (rowLineRaw st fmt indent (rowData outs aligns i) k).length = tableWidth st indent outs := by
+  unfold rowLineRaw tableWidth gridWidth rowData
+  rw [List.length_append, List.length_append, rep_length, List.length_flatten,
+    rowPieces_widths st fmt hp k _ (rowDataFrom_fits aligns i outs 0 hok)]
+  have : (rowDataFrom aligns i 0 outs).map (fun c => c.1 + fmtLen fmt)
+      = outs.map (fun o => o.width + excess st) := by
+    have := rowDataFrom_widths aligns i outs 0
+    rw [hf]
+    calc (rowDataFrom aligns i 0 outs).map (fun c => c.1 + excess st)
+        = ((rowDataFrom aligns i 0 outs).map (·.1)).map (· + excess st) := by simp [Function.comp_def]
+      _ = outs.map (fun o => o.width + excess st) := by rw [this]; simp [Function.comp_def]
+  rw [this]
+  simp
+
+/-- `col_width_const`: the pieces of every line of every row have the same widths -/
+theorem rowPieces_const (st : Clikit.Gen.C14.TableStyle) (fmt : Str × Str)
+    (hp : st.padding_char.length = 1) (outs : List ColOut) (hok : OutsOk outs) (aligns : List Nat)
+    (i k : Nat) :
+    (rowPieces st fmt k (rowData outs aligns i)).map List.length
+      = pieceWidths st.border.line_vc_char.length st.border.line_vr_char.length
+          (outs.map (fun o => o.width + fmtLen fmt)) := by
+  unfold rowData
+  rw [rowPieces_widths st fmt hp k _ (rowDataFrom_fits aligns i outs 0 hok)]
+  congr 1
+  have := rowDataFrom_widths aligns i outs 0
+  calc (rowDataFrom aligns i 0 outs).map (fun c => c.1 + fmtLen fmt)
+      = ((rowDataFrom aligns i 0 outs).map (·.1)).map (· + fmtLen fmt) := by simp [Function.comp_def]
+    _ = outs.map (fun o => o.width + fmtLen fmt) := by rw [this]; simp [Function.comp_def]
+
+/-! ### styles -/
+
+/-- a border line either lines up with the rows (one line character per cell character,
+corner/crossing strings as long as the vertical border strings) or is entirely blank (then
+`draw_border` does not write it) -/
+def borderOk (st : Clikit.Gen.C14.TableStyle) (lineCh l c r : Str) : Bool :=
+  (lineCh.length == 1 && l.length == st.border.line_vl_char.length
+    && c.length == st.border.line_vc_char.length && r.length == st.border.line_vr_char.length)
+  || (lineCh.isEmpty && l.all isWs && c.all isWs && r.all isWs)
+
+/-- what the rectangle needs from a table style: a one-character padding, the format of every
+drawn row as wide as `excess_column_width`, three well-formed borders -/
+def styleOk (st : Clikit.Gen.C14.TableStyle) (hasHeader : Bool) : Bool :=
+  st.padding_char.length == 1 && fmtLen st.cell_format == excess st
+  && (!hasHeader || fmtLen st.header_cell_format == excess st)
+  && borderOk st st.border.line_ht_char st.border.corner_tl_char st.border.crossing_t_char st.border.corner_tr_char
+  && borderOk st st.border.line_hc_char st.border.crossing_l_char st.border.crossing_c_char st.border.crossing_r_char
+  && borderOk st st.border.line_hb_char st.border.corner_bl_char st.border.crossing_b_char st.border.corner_br_char
+
+theorem borderRaw_ok (st : Clikit.Gen.C14.TableStyle) (indent : Nat) (outs : List ColOut)
+    (lineCh l c r : Str) (h : borderOk st lineCh l c r = true) :
+    (borderRaw indent (outs.map (fun o => o.width + excess st)) lineCh l c r).length
+        = tableWidth st indent outs
+    ∨ rstrip (borderRaw indent (outs.map (fun o => o.width + excess st)) lineCh l c r) = [] := by
+  unfold borderOk at h
+  rcases (Bool.or_eq_true _ _).mp h with h | h
+  · left
+    simp only [Bool.and_eq_true, beq_iff_eq] at h
+    obtain ⟨⟨⟨h1, h2⟩, h3⟩, h4⟩ := h
+    unfold borderRaw tableWidth
+    rw [List.length_append, List.length_append, rep_length, borderBody_length _ _ _ h1, h2, h3, h4]
+    simp
+  · right
+    simp only [Bool.and_eq_true, List.all_eq_true, List.isEmpty_iff] at h
+    obtain ⟨⟨⟨h1, h2⟩, h3⟩, h4⟩ := h
+    subst h1
+    apply rstrip_all_ws
+    intro x hx
+    unfold borderRaw at hx
+    rcases List.mem_append.mp hx with hx | hx
+    · rcases List.mem_append.mp hx with hx | hx
+      · exact rep_blank indent x hx
+      · exact h2 x hx
+    · exact borderBody_blank c r h3 h4 _ x hx
+
+/-- `rect` on the drawing level: every line, before the trailing-blank strip, is exactly
+`tableWidth` wide - except border lines that are entirely blank (not written at all) -/
+theorem renderRowsRaw_width (st : Clikit.Gen.C14.TableStyle) (hasHeader : Bool)
+    (hst : styleOk st hasHeader = true) (outs : List ColOut) (hok : OutsOk outs)
+    (aligns : List Nat) (nrows indent : Nat) :
+    ∀ raw ∈ renderRowsRaw st aligns hasHeader nrows outs indent,
+      raw.2.length = tableWidth st indent outs ∨ (raw.1 = true ∧ rstrip raw.2 = []) := by
+  unfold styleOk at hst
+  simp only [Bool.and_eq_true, beq_iff_eq, Bool.or_eq_true, Bool.not_eq_true'] at hst
+  obtain ⟨⟨⟨⟨⟨hp, hc⟩, hh⟩, htop⟩, hmid⟩, hbot⟩ := hst
+  have hb : ∀ lineCh l c r, borderOk st lineCh l c r = true →
+      ∀ raw : RawLine, raw = (true, borderRaw indent (outs.map (fun o => o.width + excess st)) lineCh l c r) →
+      raw.2.length = tableWidth st indent outs ∨ (raw.1 = true ∧ rstrip raw.2 = []) := by
+    intro lineCh l c r h raw hraw
+    subst hraw
+    rcases borderRaw_ok st indent outs lineCh l c r h with h' | h'
+    · exact Or.inl h'
+    · exact Or.inr ⟨rfl, h'⟩
+  have hrow : ∀ fmt, fmtLen fmt = excess st → ∀ i, ∀ raw ∈
+      (drawRowRaw st fmt indent (rowData outs aligns i)).map (fun s => ((false, s) : RawLine)),
+      raw.2.length = tableWidth st indent outs ∨ (raw.1 = true ∧ rstrip raw.2 = []) := by
+    intro fmt hf i raw hraw
+    obtain ⟨s, hs, rfl⟩ := List.mem_map.mp hraw
+    unfold drawRowRaw at hs
+    obtain ⟨k, _, rfl⟩ := List.mem_map.mp hs
+    exact Or.inl (rowLineRaw_length st fmt hp hf indent outs hok aligns i k)
+  intro raw hraw
+  unfold renderRowsRaw at hraw
+  simp only at hraw
+  split at hraw
+  · rename_i hhdr
+    have hh' : fmtLen st.header_cell_format = excess st := by
+      rcases hh with h | h
+      · rw [hhdr] at h; cases h
+      · exact h
+    simp only [List.mem_append, List.mem_singleton, List.mem_flatten, List.mem_map, List.mem_range] at hraw
+    rcases hraw with (((h | h) | h) | h) | h
+    · exact hb _ _ _ _ htop raw h
+    · exact hrow _ hh' 0 raw (by simpa [List.mem_map] using h)
+    · exact hb _ _ _ _ hmid raw h
+    · obtain ⟨rowl, ⟨i, _, rfl⟩, hmem⟩ := h
+      exact hrow _ hc (i + 1) raw hmem
+    · exact hb _ _ _ _ hbot raw h
+  · simp only [List.mem_append, List.mem_singleton, List.mem_flatten, List.mem_map, List.mem_range] at hraw
+    rcases hraw with (h | h) | h
+    · exact hb _ _ _ _ htop raw h
+    · obtain ⟨rowl, ⟨i, _, rfl⟩, hmem⟩ := h
+      exact hrow _ hc i raw hmem
+    · exact hb _ _ _ _ hbot raw h
+
+theorem finish_length (W : Nat) (raw : RawLine)
+    (h : raw.2.length = W ∨ (raw.1 = true ∧ rstrip raw.2 = [])) :
+    ∀ s, finish raw = some s → s.length ≤ W := by
+  intro s hs
+  unfold finish at hs
+  simp only at hs
+  split at hs
+  · cases hs
+  · cases hs
+    rcases h with h | h
+    · have := rstrip_length_le raw.2; omega
+    · rw [h.2]; simp
+
+/-! ### `Table.render` -/
+
+/-- the terminal leaves at least one character per column beside the borders:
+`available_width ≥ nb_columns` -/
+def feasible (st : Clikit.Gen.C14.TableStyle) (t : Table) (width indent : Nat) : Prop :=
+  indent + borderWidth st t.n + t.n * excess st + t.n ≤ width
+
+/-- `available_width` for a feasible terminal width -/
+def availOf (st : Clikit.Gen.C14.TableStyle) (t : Table) (width indent : Nat) : Nat :=
+  width - (indent + borderWidth st t.n + t.n * excess st)
+
+theorem initRows_length (n : Nat) (rows : List (List Str)) : (initRows n rows).length = n := by
+  simp [initRows]
+
+theorem initRows_cellOk (n : Nat) (rows : List (List Str)) :
+    ∀ col ∈ initRows n rows, ∀ c ∈ col, CellOk c := by
+  intro col hcol c hc
+  unfold initRows at hcol
+  obtain ⟨j, _, rfl⟩ := List.mem_map.mp hcol
+  obtain ⟨r, _, rfl⟩ := List.mem_map.mp hc
+  exact mkCell_cellOk _
+
+theorem exists_zip_left {α β} (l1 : List α) :
+    ∀ (l2 : List β) (b : β), l1.length = l2.length → b ∈ l2 → ∃ a, (a, b) ∈ l1.zip l2 := by
+  induction l1 with
+  | nil => intro l2 b hl hb; cases l2 <;> simp_all
+  | cons x r ih =>
+    intro l2 b hl hb
+    cases l2 with
+    | nil => simp at hb
+    | cons y r2 =>
+      rcases List.mem_cons.mp hb with h | h
+      · subst h; exact ⟨x, by simp⟩
+      · obtain ⟨a, ha⟩ := ih r2 b (by simpa using hl) h
+        exact ⟨a, by simp [ha]⟩
+
+theorem fitRel_outsOk (n avail : Nat) (cols : List Column) (outs : List ColOut)
+    (hlen : outs.length = cols.length) (hcells : ∀ col ∈ cols, ∀ c ∈ col, CellOk c)
+    (hrel : ∀ p ∈ cols.zip outs, FitRel n avail p.1 p.2) : OutsOk outs := by
+  intro o ho c hc
+  obtain ⟨col, hz⟩ := exists_zip_left cols outs o hlen.symm ho
+  have hcol := (List.of_mem_zip hz).1
+  rcases hrel _ hz with ⟨_, h2, h3⟩ | ⟨w, _, _, h3, h4, _, _⟩
+  · simp only at h2 h3
+    rw [h3] at hc
+    exact ⟨hcells col hcol c hc, by rw [h2]; exact len_le_colLen col c hc⟩
+  · simp only at h3 h4
+    constructor
+    · rw [h3] at hc
+      obtain ⟨c0, hc0, rfl⟩ := List.mem_map.mp hc
+      exact wrapCellP_cellOk w c0 (hcells col hcol c0 hc0)
+    · rw [h4]; exact len_le_colLen _ c hc
+
+/-- `Table.render` up to the drawing: for a feasible width the cell wrapper does not raise -/
+theorem layout_spec (share : Nat → Nat → Nat → Nat) (st : Clikit.Gen.C14.TableStyle) (t : Table)
+    (width indent : Nat) (hf : feasible st t width indent) :
+    ∃ outs, layout share st t width indent = .ok outs ∧ outs.length = t.n ∧
+      (outs.map (·.width)).sum ≤ availOf st t width indent ∧
+      (∀ p ∈ (initRows t.n t.allRows).zip outs,
+          FitRel t.n (availOf st t width indent) p.1 p.2) ∧
+      OutsOk outs := by
+  unfold feasible at hf
+  have hav : availableWidth st t.n width indent = some (availOf st t width indent) := by
+    unfold availableWidth availOf
+    simp only
+    rw [if_pos (by omega)]
+  have hlen := initRows_length t.n t.allRows
+  obtain ⟨outs, h1, h2, h3, h4⟩ := fit_spec share (availOf st t width indent)
+    (initRows t.n t.allRows) (by rw [hlen]; unfold availOf; omega)
+  rw [hlen] at h2 h4
+  refine ⟨outs, ?_, h2, h3, h4, ?_⟩
+  · unfold layout; rw [hav]; exact h1
+  · exact fitRel_outsOk t.n _ _ outs (by rw [h2, hlen]) (initRows_cellOk _ _) h4
+
+/-- the table is never wider than the terminal -/
+theorem tableWidth_le (st : Clikit.Gen.C14.TableStyle) (t : Table) (width indent : Nat)
+    (hf : feasible st t width indent) (outs : List ColOut) (hn : outs.length = t.n)
+    (hsum : (outs.map (·.width)).sum ≤ availOf st t width indent) :
+    tableWidth st indent outs ≤ width := by
+  unfold feasible at hf
+  unfold availOf at hsum
+  unfold tableWidth
+  rw [← hn] at hf hsum
+  unfold borderWidth at hf hsum
+  cases outs with
+  | nil => simp [gridWidth, pieceWidths] at hf ⊢; omega
+  | cons o r =>
+    have : (o :: r).map (fun o => o.width + excess st)
+        = ((o :: r).map (·.width)).map (· + excess st) := by simp [Function.comp_def]
+    rw [this, List.map_cons, gridWidth_cons]
+    simp only [List.length_cons, List.length_map, Nat.add_sub_cancel, Nat.add_mul, Nat.one_mul,
+      List.map_cons] at hf hsum ⊢
+    omega
+
+/-! ### cell text -/
+
+theorem cell_text_of_fitRel (n avail : Nat) (rows : List (List Str)) (j : Nat) (o : ColOut)
+    (h : FitRel n avail (rows.map (fun r => mkCell (r.getD j []))) o) (i : Nat) :
+    nonblank (splitLines ((o.cells.getD i ⟨[], 0⟩).text)).flatten
+      = nonblank ((rows.getD i []).getD j []) := by
+  rcases h with ⟨_, _, h3⟩ | ⟨w, _, hw, h3, _, _, _⟩
+  · rw [h3]
+    simp only [List.getD_eq_getElem?_getD, List.getElem?_map]
+    cases rows[i]? with
+    | none => simp [splitLines, nonblank]
+    | some r => simp only [Option.map_some, Option.getD_some]; exact mkCell_text _
+  · rw [h3]
+    simp only [List.getD_eq_getElem?_getD, List.getElem?_map]
+    cases rows[i]? with
+    | none => simp [splitLines, nonblank]
+    | some r =>
+      simp only [Option.map_some, Option.getD_some]
+      rw [wrapCellP_text w hw]
+      simp only [mkCell]
+      exact nonblank_rstrip _
+
+theorem zip_getElem_mem {α β} (l1 : List α) (l2 : List β) (j : Nat) (h1 : j < l1.length)
+    (h2 : j < l2.length) : (l1[j], l2[j]) ∈ l1.zip l2 := by
+  have : j < (l1.zip l2).length := by simp [List.length_zip]; omega
+  have h := List.getElem_mem this
+  rwa [List.getElem_zip] at h
+
+theorem initRows_getElem (n : Nat) (rows : List (List Str)) (j : Nat) (hj : j < n) :
+    (initRows n rows)[j]'(by rw [initRows_length]; exact hj)
+      = rows.map (fun r => mkCell (r.getD j [])) := by
+  simp [initRows]
+
+/-- `r` is `.ok v` (decidable; used by the kernel-checked examples) -/
+def okIs {α} [DecidableEq α] (r : Except Err α) (v : α) : Bool :=
+  match r with
+  | .ok x => decide (x = v)
+  | .error _ => false
+
 end Clikit.Table
